@@ -84,3 +84,68 @@ def guard_text(func, cfg, node):
             continue
         parts.append(("" if t else "!") + astq.estr(cn))
     return " && ".join(sorted(parts))[:160] or "always"
+
+
+# ---------------------------------------------------------------------------------------------------------------
+# script switches of the session stepper, helper-aware: a switch is either a direct assignment to env.script or a call
+# of a repository function whose write-set contains env.script (e.g. an EnterScript(env, next) helper)
+
+def _env_field_written(prog, func, node, fld, al):
+    """does this statement-level node write session field `fld` (directly or through a resolved callee)?"""
+    k = node.get("k")
+    lhs = None
+    if k == "opcall" and node.get("op") in ("=", "+=", "-=") and node["args"]:
+        lhs = node["args"][0]
+    elif k in ("assign", "cassign"):
+        lhs = node["lhs"]
+    elif k == "un" and node.get("op") in ("++", "--"):
+        lhs = node["e"]
+    if lhs is not None:
+        for p in astq.paths(lhs, al):
+            if tuple(x for x in p[1:] if x not in ("*", "[]")) == (fld,):
+                return True
+        # chained assignment  a = b = c : the inner assignment is its own node
+        return False
+    if astq.is_call(node) and node.get("cid") and prog.resolve(node["cid"]):
+        for p in prog.call_effects(func, node):
+            if p[0][0] == "parm" and tuple(x for x in p[1:] if x not in ("*", "[]"))[:1] == (fld,):
+                return True
+    return False
+
+
+def field_writers(prog, func, fld):
+    al = astq.aliases(func)
+    out = []
+    for n in func.nodes():
+        if n.get("k") in ("opcall", "assign", "cassign", "un", "call", "mcall"):
+            if _env_field_written(prog, func, n, fld, al):
+                out.append(n)
+    return out
+
+
+def script_switches(prog, stepper):
+    """nodes of the stepper at which the session script is replaced"""
+    return field_writers(prog, stepper, "script")
+
+
+def func_calling(fb, file, callee_short, kind=("call", "mcall")):
+    """the function defined in `file` that contains a call of `callee_short` (the tool's driver may be main itself or a
+    worker function main delegates to)"""
+    hits = []
+    for f in fb.funcs.values():
+        if f.file != file:
+            continue
+        for n in f.nodes():
+            if n.get("k") in kind and n.get("n") == callee_short:
+                hits.append(f)
+                break
+    if not hits:
+        raise AnalysisBroken("no function in %s calls %s" % (file, callee_short))
+    return hits[0]
+
+
+def main_of(fb, file):
+    m = [f for f in fb.funcs.values() if f.d.get("main") and f.file == file]
+    if not m:
+        raise AnalysisBroken("main() of %s not found" % file)
+    return m[0]
